@@ -24,7 +24,8 @@ def check(run, prog, tier):
     lb = run.need(unit.funcs.get("load_binary"), "load_binary")
     ct = run.need(unit.funcs.get("check_times"), "check_times")
     sb = run.need(unit.funcs.get("save_binary"), "save_binary")
-    ib = run.need(unit.funcs.get("init_binaries"), "init_binaries")
+    import inline as _inl
+    ib = _inl.inlined(run.need(unit.funcs.get("init_binaries"), "init_binaries"))
     for f in (lb, ct, sb, ib):
         run.saw(f)
 
